@@ -80,7 +80,7 @@ const MAPS: &[([u8; 3], u8)] = &[
     ([0x80, 0xC0, 0x40], 0x00), // equal mod 64
     ([b'\n', b'\r', b'\t'], b'x'),
 ];
-const SCALES: &[usize] = &[1, 3, 7, 9, 17, 2, 33];
+const SCALES: &[usize] = &[1, 3, 7, 9, 17, 2, 33, 64, 5, 52];
 const PADS: &[(usize, usize)] = &[(0, 0), (13, 0), (0, 20), (16, 16), (64, 3), (3, 64), (1, 1), (40, 40), (100, 0), (0, 130)];
 
 pub fn lift_for(j: usize, k: usize) -> Lift {
